@@ -73,6 +73,14 @@ CHECKS = {
              "Writer(validator=True)/json_writer(validator=True), which must raise and leave a stream holding exactly the records "
              "accepted before (independent container parser).",
         ref="DESIGN.md §4 C10"),
+    "C09": dict(
+        cat="exploration", tech="runtime monitoring: branch indices observed in the written bytes vs an independent implementation of the stated rule; cross-process re-encoding; read/write closure",
+        text="The union indices found in the bytes (independent decoder) are compared with the statement's rule computed by an "
+             "independent conformance predicate on union-heavy schemas, targeted record-tie and float/double families, hinted "
+             "and wrongly hinted data, with and without tuple notation; a sample of cases is re-encoded in fresh interpreters "
+             "under other PYTHONHASHSEED values after unrelated calls; reads with return_named_type are written back and must "
+             "reproduce the bytes; tags under all four reader options must name the selected branch.",
+        ref="DESIGN.md §4 C09"),
 }
 
 NOT_YET = "check not built yet in this session (see DESIGN.md §8 build order)"
